@@ -120,15 +120,22 @@ def read_graph(backend, execution_id: str) -> tuple[list, dict]:
     return out, flags
 
 
-def run_and_read(ctx: Ctx, e: dict, tag: str, rng) -> tuple[dict, list, dict, dict]:
-    """Run program e under the controlled loop on a fresh database; returns (outcome, nodes, flags, tree)."""
+def run_and_read(ctx: Ctx, e: dict, tag: str, rng, thaw: bool = False) -> tuple[dict, list, dict, dict]:
+    """Run program e under the controlled loop on a fresh database; returns (outcome, nodes, flags, tree).
+    thaw: the expression is serialised and read back first (as a result expression served from the cache is);
+    the recorded dataflow must not depend on that."""
     db = simloop.clone_db(ctx.scratch, f"prov_{tag}.db")
     bk = simloop.open_backend(db)
     try:
         s, d = simloop.make_scheduler(bk, limits={}, chooser=simloop.RandomChooser(rng, 0.5),
                                       executors=("default", "process"))
         eid = str(uuid.uuid4())
-        out = simloop.run_controlled(s, d, EL.build(e), execution_id=eid)
+        expr = EL.build(e)
+        if thaw:
+            from redun.utils import pickle_dumps, pickle_loads
+
+            expr = pickle_loads(pickle_dumps(expr))
+        out = simloop.run_controlled(s, d, expr, execution_id=eid)
         nodes, flags = read_graph(bk, eid)
         # job tree as observed at the seams (creation paths) vs Job rows
         tree = {"njobs_created": d.njobs}
